@@ -156,7 +156,7 @@ Proof. vm_compute. repeat split. Qed.
 
 (* ---------------------------------------------------------------- the results theorems apply *)
 (* (Persist/PTop.v; non-vacuity of their hypotheses on concrete histories) *)
-From Salsa.Persist Require Statement PTop.
+From Salsa.Persist Require Statement PTop LTop.
 
 (* a program whose persisted functions only call persisted functions:
    plain(0) = lru_fn(0) + input 0.1, lru_fn(0) = input 0.0; families 0 and 1 are persisted *)
@@ -268,7 +268,7 @@ Proof.
   assert (L : Forall Statement.low_op ops_flat) by (repeat constructor).
   assert (W : Statement.wf_ops false false ops_flat) by (cbn; repeat split).
   cbv zeta. split; [|split; [vm_compute; reflexivity | split; [exact L | split; [exact W|]]]].
-  - apply (PTop.results_low prog_pq noeq pfam [] nolru rank_pq A FUEL B FUEL FUEL B B' iv ops_flat L W).
+  - apply (LTop.results_low prog_pq noeq pfam [] nolru rank_pq A FUEL B FUEL FUEL B B' iv ops_flat L W).
     vm_compute. repeat split; discriminate.
   - intros Hc. specialize (Hc (0, 0) (3, 0) eq_refl (calls_here (3, 0) _)). discriminate Hc.
 Qed.
@@ -345,30 +345,33 @@ Proof.
   { intros q. unfold rank_f4. repeat match goal with |- context [if ?b then _ else _] => destruct b end; lia. }
   assert (B : forall q, (rank_f4 q < FUEL)%nat) by (intros q; specialize (R q); unfold FUEL; lia).
   assert (B' : forall q, (S (rank_f4 q) < FUEL)%nat) by (intros q; specialize (R q); unfold FUEL; lia).
-  apply (PTop.results_low prog_f4 noeq pfam [1] lru2 rank_f4 prog_f4_calls FUEL B FUEL FUEL B B' iv ops_f4).
+  apply (LTop.results_low prog_f4 noeq pfam [1] lru2 rank_f4 prog_f4_calls FUEL B FUEL FUEL B B' iv ops_f4).
   - repeat constructor.
   - cbn. repeat split.
   - vm_compute. repeat split; discriminate.
 Qed.
 
 (* ---------------------------------------------------------------- durabilities above LOW and flattening *)
-(* NOT an instance of a theorem (the program is not persisted_closed and the history is not all
-   LOW): computed.  plain(0) = np(0) + 1 over input 0.0, which is made HIGH.  The memo of
-   plain(0) gets durability HIGH; after a LOW write elsewhere it is validated by the durability
-   short-cut (np(0)'s memo stays at the older revision); the snapshot flattens np(0) away; in the
-   restored database a synthetic HIGH write leaves it valid (validated by the walk over the
-   flattened leaf), a HIGH write to the leaf invalidates it, and a write that makes the input
-   LOW again is seen as well. *)
+(* plain(0) = np(0) + 1 over input 0.0, which is made HIGH: the program is np_closed (np only reads
+   an input), so C26_results_np applies.  The memo of plain(0) gets durability HIGH; after a LOW
+   write elsewhere it is validated by the durability short-cut (np(0)'s memo stays at the older
+   revision); the snapshot flattens np(0) away; in the restored database a synthetic HIGH write
+   leaves it valid (validated by the walk over the flattened leaf), a HIGH write to the leaf
+   invalidates it, and a write that makes the input LOW again is seen as well. *)
 Definition ops_high : list op :=
   [OSet (0, 0) 4 (Some 2); OGet (0, 0); OSet (1, 0) 9 None; OGet (0, 0); OSnapshot; ORestore;
    OGet (0, 0); OSynth 2; OGet (0, 0); OSet (0, 0) 7 None; OGet (0, 0); OSnapshot; ORestore;
    OSet (0, 0) 8 (Some 0); OGet (0, 0); OGet (3, 0)].
 
+Lemma prog_pq_np : Statement.np_closed prog_pq pfam.
+Proof. intros q q' Hp Hc. destruct (prog_pq_calls q q' Hc) as [-> ->]. discriminate Hp. Qed.
+
 Example ex_high_results :
   let r := run prog_pq [] nolru ops_high in
+  Statement.results_ok prog_pq noeq pfam [] nolru FUEL FUEL FUEL (pinit iv (fun _ => 0) nolru) ops_high /\
   snd r = [POk 0; POk 5; POk 0; POk 5; POk 0; POk 0; POk 5; POk 0; POk 5; POk 0; POk 8; POk 0; POk 0;
            POk 0; POk 9; POk 8] /\
-  Statement.wf_ops false false ops_high /\
+  Statement.wf_ops false false ops_high /\ Forall Statement.dur_op ops_high /\
   (* executed once; validated by the short-cut after the LOW write; after the restore validated
      by the walk over the flattened leaf (synthetic HIGH write); executed after each write to it *)
   List.rev (d_log (ps_db (fst r)))
@@ -377,4 +380,17 @@ Example ex_high_results :
   (* the serialised memo: durability HIGH, verified in the revision of the LOW write, one leaf *)
   option_map (fun m => (m_dur m, m_verified m, m_edges m))
     (d_memo (ps_db (fst (run prog_pq [] nolru (firstn 6 ops_high)))) (0, 0)) = Some (2, 3, [EIn (0, 0)]).
-Proof. vm_compute. repeat split. Qed.
+Proof.
+  assert (A : calls_below prog_pq rank_pq).
+  { intros q q' Hc. destruct (prog_pq_calls q q' Hc) as [-> ->]. vm_compute. lia. }
+  assert (B : forall q, (rank_pq q < FUEL)%nat).
+  { intros q. unfold rank_pq, FUEL. destruct (key_eqb q (0, 0)); lia. }
+  assert (B' : forall q, (S (rank_pq q) < FUEL)%nat).
+  { intros q. unfold rank_pq, FUEL. destruct (key_eqb q (0, 0)); lia. }
+  assert (Dop : Forall Statement.dur_op ops_high) by (repeat constructor; cbn; lia).
+  assert (W : Statement.wf_ops false false ops_high) by (cbn; repeat split).
+  cbv zeta. split; [|split; [vm_compute; reflexivity | split; [exact W | split; [exact Dop | vm_compute; split; reflexivity]]]].
+  apply (PTop.results_np prog_pq noeq pfam [] nolru rank_pq A FUEL B FUEL FUEL B B' prog_pq_np iv (fun _ => 0) ops_high);
+    [intros i; lia | exact Dop | exact W|].
+  vm_compute. repeat split; discriminate.
+Qed.
